@@ -157,10 +157,10 @@ def oracle(case):
     else:
         text = emit_doc(case["doc"])
     info = case.setdefault("_info", {})
-    if not case.get("file"):
-        if not survives_mmcif_package(text):
-            info["discarded"] = True
-            return []
+    if not survives_mmcif_package(text):
+        # e.g. 6g90_1.cif carries a category written as '__chem_comp' that IoAdapterPy itself does not preserve
+        info["discarded"] = True
+        return []
     before = model_of(text)
     op = case["op"]
     category = op["category"]
